@@ -10,6 +10,7 @@ CONSTANTS
   StratSet <- Names
   AllCands = TRUE
   AllDraws = FALSE
+  BestIsMember = FALSE
 INVARIANT ComponentsWellFormed
 INVARIANT AtLeastOneMutated
 INVARIANT ExpContiguousRun
